@@ -462,8 +462,8 @@ def check_member_loops_complete(ctx):
             if not (isinstance(loop, ast.For) and isinstance(loop.target, ast.Name)):
                 continue
             it = loop.iter
-            if isinstance(it, ast.Name) and it.id in fi.module.constants:
-                it = fi.module.constants[it.id]
+            if isinstance(it, ast.Name) and it.id in fi.module.assigns:
+                it = fi.module.assigns[it.id]
             if not (isinstance(it, (ast.Tuple, ast.List)) and len(it.elts) > 1 and all(isinstance(e, ast.Constant) and isinstance(e.value, str) for e in it.elts)):
                 continue
             n += 1
